@@ -1147,6 +1147,46 @@ func genModProgram(rng *rand.Rand, fc *fieldCase, nOps int, allowExp bool) *prog
 	return p
 }
 
+// genModAccumulate: a long run of consecutive ModAdd calls on operands close to the capacity
+// of the parameter set, with the running sum on the left or on the right: the overflow of the
+// sum grows by one bit per addition until ModAdd's own reduce-and-retry path has to reduce the
+// accumulator (about nativeBits-66 additions), several times over the run.  The reduction must
+// be modulo the variable modulus.
+func genModAccumulate(rng *rand.Rand, fc *fieldCase, nAdds int) *program {
+	p := &program{fc: fc, vmodReg: -1}
+	tb := fc.mod.BitLen()
+	m := big.NewInt(4294967311)
+	if rng.IntN(2) == 0 {
+		m = randBits(rng, 2+rng.IntN(tb/2-2))
+		m.SetBit(m, m.BitLen(), 1)
+	}
+	p.vmod = m
+	g := &gen{p: p, rng: rng, mod: m, fc: fc, cap2: new(big.Int).Lsh(big.NewInt(1), uint(tb)), selReg: map[int]bool{}}
+	p.vmodReg = g.addInputERaw(m)
+	big1 := new(big.Int).Add(new(big.Int).Lsh(big.NewInt(1), uint(tb-1)), randBits(rng, 40))
+	big2 := new(big.Int).Sub(g.cap2, new(big.Int).Add(big.NewInt(2), randBits(rng, 20)))
+	ys := []int{g.addInputERaw(big1), g.addInputERaw(big2), g.addInputERaw(randBelow(rng, m))}
+	acc := g.addInputERaw(big.NewInt(int64(rng.IntN(1000))))
+	mode := rng.IntN(3) // accumulator always right, always left, alternating
+	for i := 0; i < nAdds; i++ {
+		y := ys[rng.IntN(len(ys))]
+		if rng.IntN(4) != 0 {
+			y = ys[i%2]
+		}
+		o := newOp("ModAdd")
+		if mode == 0 || (mode == 2 && i%2 == 0) {
+			o.A = []int{y, acc, p.vmodReg}
+		} else {
+			o.A = []int{acc, y, p.vmodReg}
+		}
+		acc = g.out(o, &emir{val: g.red(new(big.Int).Add(g.e(acc).val, g.e(y).val))})
+	}
+	o := newOp("ModAssertIsEqual")
+	o.A = []int{acc, g.addInputERaw(g.e(acc).val), p.vmodReg}
+	g.emit(o)
+	return p
+}
+
 // ---------------- boundary chains ----------------
 //
 // Short programs aimed at the reduction threshold of ONE native field: an
